@@ -1,6 +1,6 @@
 // Configuration loading (growth of the specification, spec/ConfigLoad.tla): loads the files TLC generated into the real
 // DataFieldTemplates + MessageMap and logs what the real code made of them.
-//   per case {"tpl":[line..],"msg":[line..]} (lines = lists of character codes)
+//   per case {"tpl":[line..],"msg":[line..]} (lines = lists of character codes; a file line may hold a batch {"cases":[..]})
 //     1. template file  -> DataFieldTemplates::readFromStream; result code, error line, all stored templates read back
 //     2. message file   -> MessageMap::readFromStream (resolver hands out the templates of step 1); result code, error
 //                          line, attributes of all resulting messages
@@ -171,7 +171,13 @@ int main(int argc, char** argv) {
   if (argc < 3) { fprintf(stderr, "usage: %s cases.ndjson out.ndjson [text]\n", argv[0]); return 2; }
   bool asText = argc > 3 && string(argv[3]) == "text";     // human readable (probing / replay)
   setFacilitiesLogLevel(-1, ll_none);
-  vector<vfj::JV> cases = vfj::readFile(argv[1]);
+  vector<vfj::JV> lines = vfj::readFile(argv[1]);
+  vector<vfj::JV> cases;                                   // a line is one case or a batch {"cases":[...]}
+  for (const auto& l : lines) {
+    if (l.has("cases")) { for (size_t i = 0; i < l["cases"].size(); i++) cases.push_back(l["cases"][i]); }
+    else cases.push_back(l);
+  }
+  lines.clear();
   long ntpl = 0, nmsg = 0, nreload = 0, ndump = 0, nmessages = 0;
   vf::Out o(argv[2]);
   for (const auto& c : cases) {
